@@ -7,7 +7,7 @@ import json, os
 from vlib.common import *
 
 NEG_W = ["RetryPermanent", "OneMore", "IgnoreCancel", "SuccessAfterFail", "DropUsage"]
-NEG_C = ["NoMutex", "IgnoreKeyId", "CachePinned", "KeyByToken"]
+NEG_C = ["NoMutex", "IgnoreKeyId", "CachePinned", "KeyByToken", "StaleOnError"]
 
 
 def _feed(run, vh, sub, behs, label, extra=None, timeout=3000):
